@@ -38,10 +38,34 @@ def json_values(max_leaves: int = 12) -> st.SearchStrategy:
     return st.recursive(leaves, lambda ch: st.one_of(st.lists(ch, max_size=4), st.dictionaries(keys, ch, max_size=4)), max_leaves=max_leaves)
 
 
+def _self_list(x: Any) -> list:
+    l: list = [x]
+    l.append(l)
+    return l
+
+
+def _parent_child(x: Any) -> dict:
+    parent: dict = {"name": "parent", "payload": x, "children": []}
+    child = {"name": "child", "parent": parent}
+    parent["children"].append(child)
+    return parent
+
+
+def _shared(x: Any) -> list:
+    inner = [x, "shared"]
+    return [inner, inner, {"again": inner}]
+
+
+def cyclic_values() -> st.SearchStrategy:
+    """Object graphs with reference cycles / shared references (pickle-based serializers only)."""
+    base = st.one_of(st.integers(-5, 5), text)
+    return st.one_of(st.builds(_self_list, base), st.builds(_parent_child, base), st.builds(_shared, base))
+
+
 def pickle_values(max_leaves: int = 12) -> st.SearchStrategy:
     hashable = st.one_of(st.none(), st.booleans(), st.integers(-5, 5), text, st.binary(max_size=6))
     leaves = st.one_of(scalars, enums, exceptions, money, st.binary(max_size=8))
-    return st.recursive(
+    return st.one_of(cyclic_values(), st.recursive(
         leaves,
         lambda ch: st.one_of(
             st.lists(ch, max_size=4),
@@ -51,7 +75,7 @@ def pickle_values(max_leaves: int = 12) -> st.SearchStrategy:
             st.sets(hashable, max_size=3),
         ),
         max_leaves=max_leaves,
-    )
+    ))
 
 
 def jsonpickle_values(max_leaves: int = 12) -> st.SearchStrategy:
@@ -67,30 +91,44 @@ def sized(v: Any, pad: int) -> Any:
     return {"v": v, "pad": "x" * pad}
 
 
-def depth(v: Any) -> int:
+def depth(v: Any, _seen: frozenset = frozenset(), _lim: int = 12) -> int:
+    if id(v) in _seen or _lim <= 0:
+        return 0
     if isinstance(v, dict):
-        return 1 + max((depth(x) for x in v.values()), default=0)
+        return 1 + max((depth(x, _seen | {id(v)}, _lim - 1) for x in v.values()), default=0)
     if isinstance(v, (list, tuple, set, frozenset)):
-        return 1 + max((depth(x) for x in v), default=0)
+        return 1 + max((depth(x, _seen | {id(v)}, _lim - 1) for x in v), default=0)
     return 0
 
 
-def same(a: Any, b: Any) -> bool:
-    """Structural, type-aware, NaN-aware equality."""
+def same(a: Any, b: Any, _memo: set | None = None) -> bool:
+    """Structural, type-aware, NaN-aware equality; cycle-safe (a revisited pair is assumed equal,
+    so two graphs are equal iff they unfold to the same infinite tree with the same sharing of containers)."""
+    if _memo is None:
+        _memo = set()
+    if isinstance(a, (list, dict)) and isinstance(b, (list, dict)):
+        key = (id(a), id(b))
+        if key in _memo:
+            return True
+        _memo.add(key)
+    return _same(a, b, _memo)
+
+
+def _same(a: Any, b: Any, _memo: set) -> bool:
     if isinstance(a, float) and isinstance(b, float):
         if math.isnan(a) or math.isnan(b):
             return math.isnan(a) and math.isnan(b)
         return a == b and math.copysign(1, a) == math.copysign(1, b)
     if isinstance(a, BaseException) or isinstance(b, BaseException):
-        return type(a) is type(b) and same(list(a.args), list(b.args))
+        return type(a) is type(b) and same(list(a.args), list(b.args), _memo)
     if type(a) is not type(b):
         return False
     if isinstance(a, dict):
-        return a.keys() == b.keys() and all(same(a[k], b[k]) for k in a)
+        return a.keys() == b.keys() and all(same(a[k], b[k], _memo) for k in a)
     if isinstance(a, (list, tuple)):
-        return len(a) == len(b) and all(same(x, y) for x, y in zip(a, b))
+        return len(a) == len(b) and all(same(x, y, _memo) for x, y in zip(a, b))
     if isinstance(a, (set, frozenset)):
         return a == b
     if isinstance(a, T.Money):
-        return same(a.amount, b.amount) and a.currency == b.currency
+        return same(a.amount, b.amount, _memo) and a.currency == b.currency
     return a == b
